@@ -95,7 +95,8 @@ pub fn c15_run(run: u64, seed: u64) -> RunOut {
     let transfer_at = rng.usize_below(n_updates + 1);
     let extra_at = rng.usize_below(n_updates + 1);
     let drop_sender = rng.chance(70);
-    let replay = json!({"run": run, "seed": seed, "cfg_a": cfg_json(&cfg_a), "cfg_b": cfg_json(&cfg_b), "net": netcfg_class(&netcfg), "h1_pct": h1,
+    let onward_fails = hops == 2 && rng.chance(30);
+    let replay = json!({"onward_hop_fails": onward_fails, "run": run, "seed": seed, "cfg_a": cfg_json(&cfg_a), "cfg_b": cfg_json(&cfg_b), "net": netcfg_class(&netcfg), "h1_pct": h1,
         "hops": hops, "sender_remote": sender_remote, "updates": n_updates, "transfer_at": transfer_at, "extra_receiver_at": extra_at, "drop_sender": drop_sender});
     let mut out = RunOut::default();
     let panics0 = crate::mem::panic_count();
@@ -112,7 +113,7 @@ pub fn c15_run(run: u64, seed: u64) -> RunOut {
             let RchConn { net: net2, a: a2, b: b2, sched: s2 } = c;
             let RchEnd { tx: tx_bc, rx: rx_b2, conn: cb2 } = a2;
             let RchEnd { tx: tx_c, rx: rx_c, conn: cc } = b2;
-            Some((Some(tx_bc), rx_c, (net2, rx_b2, cb2, tx_c, cc, s2)))
+            Some((Some(tx_bc), Some(rx_c), (net2, rx_b2, cb2, tx_c, cc, s2)))
         } else {
             None
         };
@@ -170,24 +171,39 @@ pub fn c15_run(run: u64, seed: u64) -> RunOut {
                     let Some(Ok(Some(WShip::Rx(rrx)))) = got else { return Err("watch receiver did not arrive".into()) };
                     let (_, t) = ship.await.map_err(|e| e.to_string())?;
                     tx_ab = t;
+                    let mut who = format!("remote({hops} hops)");
                     let final_rx = if let Some(c2) = hop2.as_mut() {
                         // forward it over the second connection
                         let mut tx_bc = c2.0.take().unwrap();
-                        let ship2 = crate::sched::spawn(async move {
-                            let r = tx_bc.send(WShip::Rx(rrx)).await.map_err(|e| e.to_string());
-                            (r, tx_bc)
-                        });
-                        let got = or_quiescent(c2.1.recv()).await;
-                        let Some(Ok(Some(WShip::Rx(crx)))) = got else { return Err("watch receiver did not arrive at C".into()) };
-                        let _ = ship2.await;
-                        crx
+                        if onward_fails {
+                            // B keeps a clone and forwards the other one to an endpoint that never takes it:
+                            // the failing onward hop must not disturb B's own receiver
+                            let keep = rrx.clone();
+                            drop(c2.1.take());
+                            let ship2 = crate::sched::spawn(async move {
+                                let r = tx_bc.send(WShip::Rx(rrx)).await.map_err(|e| e.to_string());
+                                (r, tx_bc)
+                            });
+                            let _ = or_quiescent(ship2).await;
+                            who = "remote(1 hop, onward hop failed)".into();
+                            keep
+                        } else {
+                            let ship2 = crate::sched::spawn(async move {
+                                let r = tx_bc.send(WShip::Rx(rrx)).await.map_err(|e| e.to_string());
+                                (r, tx_bc)
+                            });
+                            let got = or_quiescent(c2.1.as_mut().unwrap().recv()).await;
+                            let Some(Ok(Some(WShip::Rx(crx)))) = got else { return Err("watch receiver did not arrive at C".into()) };
+                            let _ = ship2.await;
+                            crx
+                        }
                     } else {
                         rrx
                     };
                     let obs: Obs = Arc::new(Mutex::new(Vec::new()));
                     let closed = Arc::new(Mutex::new(false));
                     let h = watch_observer(final_rx, rng.below(4), obs.clone(), closed.clone());
-                    observers.push((format!("remote({hops} hops)"), obs, closed, h));
+                    observers.push((who, obs, closed, h));
                 }
             }
             if k == extra_at {
